@@ -57,6 +57,10 @@ type resolver struct {
 	unresolvedUses []*usesUnresolved
 	loadedModules  map[string]*Module
 	trace          bool
+
+	// submodules already copied into a module ("module/submodule"), submodules may
+	// include each other
+	includedSubmodules map[string]bool
 }
 
 func (r *resolver) module(y *Module) error {
@@ -220,6 +224,13 @@ func (r *resolver) copyOverIncludes(main *Module, includes []*Include) error {
 		if i.loader == nil {
 			return errors.New("no module loader defined")
 		}
+		if r.includedSubmodules == nil {
+			r.includedSubmodules = make(map[string]bool)
+		}
+		if r.includedSubmodules[main.ident+"/"+i.subName] {
+			continue
+		}
+		r.includedSubmodules[main.ident+"/"+i.subName] = true
 		var err error
 		var rev string
 		if i.rev != nil {
